@@ -23,8 +23,9 @@ func (l *VerifC02Leaf) encode() []byte               { return nil }
 // VerifC02ReadGtab runs the real readGtab (header, script list, feature list,
 // lookup list with extension resolution) with a subtable reader that decodes
 // extension records with the real readExtensionSubtable and returns a
-// VerifC02Leaf for everything else.
-func VerifC02ReadGtab(r parser.ReadSeekSizer, tp Type) (*Info, error) {
+// VerifC02Leaf for everything else.  It also returns how often the subtable
+// reader was called.
+func VerifC02ReadGtab(r parser.ReadSeekSizer, tp Type) (*Info, int, error) {
 	var extType uint16
 	switch tp {
 	case TypeGsub:
@@ -32,9 +33,11 @@ func VerifC02ReadGtab(r parser.ReadSeekSizer, tp Type) (*Info, error) {
 	case TypeGpos:
 		extType = gposExtensionLookupType
 	default:
-		return nil, errors.New("bad type")
+		return nil, 0, errors.New("bad type")
 	}
+	calls := 0
 	sr := func(p *parser.Parser, pos int64, meta *LookupMetaInfo) (Subtable, error) {
+		calls++
 		err := p.SeekPos(pos)
 		if err != nil {
 			return nil, err
@@ -51,7 +54,8 @@ func VerifC02ReadGtab(r parser.ReadSeekSizer, tp Type) (*Info, error) {
 		}
 		return &VerifC02Leaf{Pos: pos, Type: meta.LookupType, Format: format}, nil
 	}
-	return readGtab(r, tp, sr)
+	info, err := readGtab(r, tp, sr)
+	return info, calls, err
 }
 
 // VerifC02ExtensionInfo reports whether st is an (unresolved) extension
